@@ -84,6 +84,7 @@ func (s *Sim) rawOp(rs *rpcState, rq *RawReq) {
 		ev.Got = fmt.Sprintf("%dB", len(b))
 		return rerr
 	})
+	simrt.Woken("raw-return")
 	s.end(ev, err)
 }
 
